@@ -5,6 +5,7 @@ from ..interp_prop import InterpProp
 
 class C03(InterpProp):
     id = 'C03'
+    decoy = 0.12
     anomaly_tags = ('macro',)
     # observables compared with the model (see InterpProp.normalize)
     cmp_eff = ('exit', 'action', 'entry')
